@@ -42,65 +42,82 @@ where
 inductive LexErr | tokenError | unsupported
   deriving Repr, DecidableEq
 
+/-- a literal with base prefix `pre` (`0x`, `0o`, `0b`): optional underscore, digits, no identifier character after -/
+def lexBased (pre : Str) (ok : Char → Bool) (r : Str) : Except LexErr (Str × Str) :=
+  let (u, r1) := match r with | '_' :: x => (['_'], x) | x => ([], x)
+  let (ds, r2) := digitPart ok r1
+  if ds.isEmpty then .error .unsupported            -- "0x" without digits: CPython error
+  else match r2 with
+    | c :: _ => if isIdChar c then .error .unsupported else .ok (pre ++ u ++ ds, r2)
+    | [] => .ok (pre ++ u ++ ds, r2)
+
+/-- integer part of a decimal literal (empty when the literal starts with `.`) -/
+def lexIntPart (s : Str) : Str × Str :=
+  match s with
+  | '.' :: _ => (([] : Str), s)
+  | _ => digitPart isAsciiDigit s
+
+/-- fraction: (text, rest, is a float) -/
+def lexFraction (r1 : Str) : Str × Str × Bool :=
+  match r1 with
+  | '.' :: x => let (d, y) := digitPart isAsciiDigit x; ('.' :: d, y, true)
+  | x => ([], x, false)
+
+/-- exponent: (text, rest, is a float) -/
+def lexExponent (r2 : Str) : Except LexErr (Str × Str × Bool) :=
+  match r2 with
+  | e :: x =>
+    if e == 'e' || e == 'E' then
+      let (sg, y) := match x with
+        | '+' :: z => (['+'], z)
+        | '-' :: z => (['-'], z)
+        | z => ([], z)
+      let (d, z) := digitPart isAsciiDigit y
+      if d.isEmpty then .error .unsupported else .ok (e :: sg ++ d, z, true)
+    else .ok ([], r2, false)
+  | [] => .ok ([], r2, false)
+
+/-- imaginary suffix / trailing junk -/
+def lexNumberTail (r3 : Str) : Except LexErr (Str × Str) :=
+  match r3 with
+  | c :: x =>
+    if c == 'j' || c == 'J' then
+      (match x with
+       | d :: _ => if isIdChar d then .error .unsupported else .ok ([c], x)
+       | [] => .ok ([c], x))
+    else if isIdChar c then .error .unsupported else .ok ([], r3)
+  | [] => .ok ([], r3)
+
+/-- leading zeros in a non-zero decimal integer literal are a tokenizer error -/
+def badLeadingZero (ip : Str) : Bool :=
+  match ip with
+  | '0' :: _ :: _ => ip.any (fun c => '1' ≤ c && c ≤ '9')
+  | _ => false
+
+def lexDecimal (s : Str) : Except LexErr (Str × Str) :=
+  let (ip, r1) := lexIntPart s
+  let (fp, r2, isFloat1) := lexFraction r1
+  match lexExponent r2 with
+  | .error e => .error e
+  | .ok (ep, r3, isFloat2) =>
+    let isFloat := isFloat1 || isFloat2
+    match lexNumberTail r3 with
+    | .error e => .error e
+    | .ok (jp, r4) =>
+      let txt := ip ++ fp ++ ep ++ jp
+      if !isFloat && jp.isEmpty && badLeadingZero ip then .error .unsupported else .ok (txt, r4)
+
 /-- NUMBER token starting at `s` (first char is a digit, or `.` followed by a digit):
 returns (token text, rest). -/
 def lexNumber (s : Str) : Except LexErr (Str × Str) :=
-  let based (pre : Str) (ok : Char → Bool) (r : Str) : Except LexErr (Str × Str) :=
-    let (u, r1) := match r with | '_' :: x => (['_'], x) | x => ([], x)
-    let (ds, r2) := digitPart ok r1
-    if ds.isEmpty then .error .unsupported            -- "0x" without digits: CPython error
-    else match r2 with
-      | c :: _ => if isIdChar c then .error .unsupported else .ok (pre ++ u ++ ds, r2)
-      | [] => .ok (pre ++ u ++ ds, r2)
   match s with
-  | '0' :: 'x' :: r => based ['0','x'] isHexDigit r
-  | '0' :: 'X' :: r => based ['0','X'] isHexDigit r
-  | '0' :: 'o' :: r => based ['0','o'] isOctDigit r
-  | '0' :: 'O' :: r => based ['0','O'] isOctDigit r
-  | '0' :: 'b' :: r => based ['0','b'] isBinDigit r
-  | '0' :: 'B' :: r => based ['0','B'] isBinDigit r
-  | _ =>
-    let (ip, r1) := match s with
-      | '.' :: _ => (([] : Str), s)
-      | _ => digitPart isAsciiDigit s
-    -- fraction
-    let (fp, r2, isFloat1) := match r1 with
-      | '.' :: x => let (d, y) := digitPart isAsciiDigit x; ('.' :: d, y, true)
-      | x => ([], x, false)
-    -- exponent
-    let expo : Except LexErr (Str × Str × Bool) := match r2 with
-      | e :: x =>
-        if e == 'e' || e == 'E' then
-          let (sg, y) := match x with
-            | '+' :: z => (['+'], z)
-            | '-' :: z => (['-'], z)
-            | z => ([], z)
-          let (d, z) := digitPart isAsciiDigit y
-          if d.isEmpty then .error .unsupported else .ok (e :: sg ++ d, z, true)
-        else .ok ([], r2, false)
-      | [] => .ok ([], r2, false)
-    match expo with
-    | .error e => .error e
-    | .ok (ep, r3, isFloat2) =>
-      let isFloat := isFloat1 || isFloat2
-      -- imaginary suffix / trailing junk
-      let tail : Except LexErr (Str × Str) := match r3 with
-        | c :: x =>
-          if c == 'j' || c == 'J' then
-            (match x with
-             | d :: _ => if isIdChar d then .error .unsupported else .ok ([c], x)
-             | [] => .ok ([c], x))
-          else if isIdChar c then .error .unsupported else .ok ([], r3)
-        | [] => .ok ([], r3)
-      match tail with
-      | .error e => .error e
-      | .ok (jp, r4) =>
-        let txt := ip ++ fp ++ ep ++ jp
-        -- leading zeros in a non-zero decimal integer literal are a tokenizer error
-        let badZero := !isFloat && jp.isEmpty && (match ip with
-          | '0' :: _ :: _ => ip.any (fun c => '1' ≤ c && c ≤ '9')
-          | _ => false)
-        if badZero then .error .unsupported else .ok (txt, r4)
+  | '0' :: 'x' :: r => lexBased ['0','x'] isHexDigit r
+  | '0' :: 'X' :: r => lexBased ['0','X'] isHexDigit r
+  | '0' :: 'o' :: r => lexBased ['0','o'] isOctDigit r
+  | '0' :: 'O' :: r => lexBased ['0','O'] isOctDigit r
+  | '0' :: 'b' :: r => lexBased ['0','b'] isBinDigit r
+  | '0' :: 'B' :: r => lexBased ['0','B'] isBinDigit r
+  | _ => lexDecimal s
 
 /-- body of a one-line string after the opening quote `q`: returns (body incl. closing quote, rest) -/
 def lexStringBody (q : Char) : Str → Except LexErr (Str × Str)
